@@ -119,6 +119,8 @@ def drive(tier):
                      "".join(c.upper() if i % 2 else c for i, c in enumerate(s))]
             cases += [s[:i] + s[i].upper() + s[i + 1:] for i in range(len(s)) if s[i].isalpha()]
             cases += [s.upper()[:i] + s[i] + s.upper()[i + 1:] for i in range(len(s)) if s[i].isalpha()]
+            # characters that case mapping or normalisation would turn into the right ones
+            cases += gen.confuse(s, r, 4) + gen.confuse(s.upper(), r, 4)
             batch(hrp, 0, prog, cases, "case")
             # truncations and extensions
             tr = [s[:i] for i in range(len(s))] + [s[i:] for i in range(1, len(s))]
@@ -167,6 +169,20 @@ def drive(tier):
             R.add("b32.decode", {"hrp": text(hrp_of[chain]), "s": text(t), "via": "CBech32Data-after-SelectParams"},
                   {"k": "ret", "ver": o.witver, "prog": b2l(o)} if k == "ret" else
                   ({"k": "none"} if type(o).__name__ in ("Bech32Error", "Bech32ChecksumError") else dict(exc_info(o), k="exc")))
+    # one object rendered under a history of chain selections: each rendering is the encoding under the prefix selected then
+    objs = []
+    bitcoin.SelectParams("mainnet")
+    for n in (20, 32, 20):
+        prog = gen.rbytes(r, n)
+        k, o = call(CBech32Data.from_bytes, 0, prog)
+        if k == "ret":
+            objs.append((prog, o))
+    for chain in ["mainnet", "testnet", "mainnet", "regtest", "signet", "regtest"] + [r.choice(list(hrp_of)) for _ in range(10)]:
+        bitcoin.SelectParams(chain)
+        for prog, o in objs:
+            k, t = call(str, o)
+            R.add("b32.encode", {"hrp": text(hrp_of[chain]), "ver": 0, "prog": b2l(prog), "via": "same-object-after-SelectParams"},
+                  {"k": "ret", "s": text(t)} if k == "ret" else dict(exc_info(t), k="exc"))
     bitcoin.SelectParams("mainnet")
     # several objects alive at once, looked at only after all were created (no state shared between objects)
     live = []
